@@ -265,6 +265,14 @@ class Sim:
             self.ev(s.value)
         elif isinstance(s, ast.Pass):
             pass
+        elif isinstance(s, ast.Try):
+            # no interpreted operation raises a catchable host exception: handlers never run; the finally block
+            # runs on every way out (fall-through, break/continue/return, and the abort of a `raise`)
+            try:
+                self.run(s.body)
+                self.run(s.orelse)
+            finally:
+                self.run(s.finalbody)
         else:
             raise Unsupported(type(s).__name__)
 
